@@ -28,6 +28,12 @@ STORES = [
 ]
 REQS = [None, '9050', '905', '9999', 'unix:/tmp/s', '127.0.0.1:9050', '9150']
 PORTS = [9050, 9150]
+# "connection accepted, then a SOCKS-level error reply": one outcome per reply code of RFC 1928 (5 is 'connection refused' —
+# by the destination, not by the port that was tried) and an unassigned one
+SOCKS_ERRORS = {1: 'GeneralServerFailureError', 2: 'ConnectionNotAllowedError', 3: 'NetworkUnreachableError', 4: 'HostUnreachableError',
+                5: 'ConnectionRefusedError', 6: 'TtlExpiredError', 7: 'CommandNotSupportedError', 8: 'AddressTypeNotSupportedError',
+                9: 'SocksError'}
+SE = ['se%d' % k for k in sorted(SOCKS_ERRORS)]
 
 
 def extract():
@@ -46,7 +52,7 @@ def gen_cases(rng, tier):
             continue    # Tor's own choice of port cannot be denoted from the configuration line (outside the quantifier)
         yield {'api': 'config', 'store': kind, 'lines': lines, 'req': req}
     for n in range(0, 3):
-        for outs in itertools.product(['ok', 'ce', 'oe', 'se'], repeat=n):
+        for outs in itertools.product(['ok', 'ce', 'oe'] + SE, repeat=n):
             yield {'api': 'fallback', 'outs': list(outs)}
 
 
@@ -135,13 +141,13 @@ def run_fallback(c, reactor):
             proto.makeConnection(tr)
             proto.dataReceived(b'\x05\x00')
             proto.dataReceived(b'\x05\x00\x00\x01\x01\x02\x03\x04\x00\x50')
-        elif o == 'se':
-            # the port accepts the connection; Tor then refuses the request at the SOCKS level (host unreachable)
+        elif o.startswith('se'):
+            # the port accepts the connection; Tor then refuses the request at the SOCKS level
             proto = factory.buildProtocol(None)
             tr = proto_helpers.StringTransport()
             proto.makeConnection(tr)
             proto.dataReceived(b'\x05\x00')
-            proto.dataReceived(b'\x05\x04\x00\x01\x00\x00\x00\x00\x00\x00')
+            proto.dataReceived(b'\x05' + bytes([int(o[2:])]) + b'\x00\x01\x00\x00\x00\x00\x00\x00')
         elif o == 'ce':
             e = error.ConnectionRefusedError()
             e.tag = k
@@ -159,7 +165,7 @@ def run_fallback(c, reactor):
 
 def driver_line(c):
     if c['api'] == 'fallback':
-        outs = ','.join('ok' if o == 'ok' else '%s:%d' % ('oe' if o == 'se' else o, k) for k, o in enumerate(c['outs'])) or '-'
+        outs = ','.join('ok' if o == 'ok' else '%s:%d' % ('oe' if o.startswith('se') else o, k) for k, o in enumerate(c['outs'])) or '-'
         return 'fallback %s %s' % (','.join(str(p) for p in PORTS), outs)
     req = '~' if c['req'] is None else hexs(c['req'])
     if c['api'] == 'config':
@@ -203,8 +209,8 @@ def spec_for(c, im):
             if outs[k] == 'oe':
                 result = 'failed:RuntimeError:%d' % k
                 break
-            if outs[k] == 'se':
-                result = 'failed:HostUnreachableError:?'
+            if outs[k].startswith('se'):
+                result = 'failed:%s:?' % SOCKS_ERRORS[int(outs[k][2:])]
                 break
             last = k
             result = 'failed:ConnectionRefusedError:%d' % last
@@ -230,7 +236,7 @@ def run_cases(cases, drv, tier):
                     mr = 'failed:ConnectionRefusedError:' + mr.split(':')[1]
                 elif mr.startswith('raised:'):
                     k_ = int(mr.split(':')[1])
-                    mr = 'failed:HostUnreachableError:?' if c['outs'][k_] == 'se' else 'failed:RuntimeError:%d' % k_
+                    mr = ('failed:%s:?' % SOCKS_ERRORS[int(c['outs'][k_][2:])]) if c['outs'][k_].startswith('se') else 'failed:RuntimeError:%d' % k_
                 corr_ok = im == {'attempts': model['attempts'], 'result': mr}
         else:
             lines = c['lines'] or []
